@@ -14,18 +14,18 @@ import (
 // ---------------------------------------------------------------- unit
 
 type Obligation struct {
-	Name    string
-	Props   []string
-	Parts   []oblPart // conjunction of (pc => goal); several sites may share one name
-	Unit    *Unit
-	Where   []string
-	Kind    string // "smt" | "structural"
-	Holds   bool   // structural verdict
-	Detail  string
-	Src     string
-	Result  *SolveResult
-	Family  string // label without property prefix
-	FnKey   string
+	Name   string
+	Props  []string
+	Parts  []oblPart // conjunction of (pc => goal); several sites may share one name
+	Unit   *Unit
+	Where  []string
+	Kind   string // "smt" | "structural"
+	Holds  bool   // structural verdict
+	Detail string
+	Src    string
+	Result *SolveResult
+	Family string // label without property prefix
+	FnKey  string
 }
 
 type oblPart struct {
@@ -34,57 +34,57 @@ type oblPart struct {
 }
 
 type Unit struct {
-	eng        *Engine
-	root       *ssa.Function
-	rootKey    string
-	fc         *FuncContract
-	lines      []string
-	decls      []string
-	facts      []string
-	declared   map[string]bool
-	obls       []*Obligation
-	oblByName  map[string]*Obligation
-	n          int
-	cells      int
-	allocs     int
-	unmodelled map[string]int
-	degraded   []string
-	siteCount  map[string]int
-	entry      *State
-	stack      []*ssa.Function
-	sends      map[int][]sendRec
-	covers     []coverPoint
-	ghostSort  map[string]Sort
-	loopsSeen  int
-	spawnDepth int
-	curFn      []string // stack of function keys being executed (for naming)
-	sentinels  map[string]Term
-	globals    map[string]Val
-	onceDone   map[string]bool
-	failed     string
+	eng         *Engine
+	root        *ssa.Function
+	rootKey     string
+	fc          *FuncContract
+	lines       []string
+	decls       []string
+	facts       []string
+	declared    map[string]bool
+	obls        []*Obligation
+	oblByName   map[string]*Obligation
+	n           int
+	cells       int
+	allocs      int
+	unmodelled  map[string]int
+	degraded    []string
+	siteCount   map[string]int
+	entry       *State
+	stack       []*ssa.Function
+	sends       map[int][]sendRec
+	covers      []coverPoint
+	ghostSort   map[string]Sort
+	loopsSeen   int
+	spawnDepth  int
+	curFn       []string // stack of function keys being executed (for naming)
+	sentinels   map[string]Term
+	globals     map[string]Val
+	onceDone    map[string]bool
+	failed      string
 	entryParams map[string]Val
-	wrapFacts  [][2]Term
-	knownRefs  []Term
-	rootCaller map[string]Term
-	onceDepth  int
+	wrapFacts   [][2]Term
+	knownRefs   []Term
+	rootCaller  map[string]Term
+	onceDepth   int
 	assumedUsed map[string]int
-	curState   *State
-	catDone    bool
-	catTerms   []Term
+	curState    *State
+	catDone     bool
+	catTerms    []Term
 	closedChans map[string]bool
 	tableCells  map[string]*Cell
 	chanCap     map[int]Term
 	// cell counter at the head of each loop currently being cut by invariant: a local channel with a smaller
 	// id was made before that loop and may still hold a value sent in an earlier iteration
-	loopMarks []int
-	initArrays map[string]Term
-	allocTypes map[int]types.Type
-	randomUUID map[Val]bool
-	strLenKnown map[string]bool
-	allocMarks  []int // number of heap allocations made when each enclosing loop was cut
-	strLitKnown map[string]bool
-	allocPC    map[int]Term
-	objinvDone map[string]bool
+	loopMarks    []int
+	initArrays   map[string]Term
+	allocTypes   map[int]types.Type
+	randomUUID   map[Val]bool
+	strLenKnown  map[string]bool
+	allocMarks   []int // number of heap allocations made when each enclosing loop was cut
+	strLitKnown  map[string]bool
+	allocPC      map[int]Term
+	objinvDone   map[string]bool
 	globalAxioms []string
 }
 
@@ -961,7 +961,7 @@ func (u *Unit) mergeVals(c Term, a, b Val) Val {
 					aux = y.Aux
 				}
 			}
-			return &Scalar{T: Ite(c, x.T, y.T), Typ: x.Typ, Origin: o, Aux: aux}
+			return &Scalar{T: Ite(c, x.T, y.T), Typ: x.Typ, Origin: o, Aux: aux, Allocs: unionAllocs(allocsOf(x), allocsOf(y))}
 		}
 		if y, ok := b.(*ClosureV); ok {
 			return &Scalar{T: Ite(c, x.T, u.closureID(y)), Typ: x.Typ}
@@ -1024,7 +1024,7 @@ func (u *Unit) mergeVals(c Term, a, b Val) Val {
 func (u *Unit) defineVal(v Val, hint string) Val {
 	switch x := v.(type) {
 	case *Scalar:
-		return &Scalar{T: u.define(x.T, hint), Typ: x.Typ, Origin: x.Origin, Aux: x.Aux}
+		return &Scalar{T: u.define(x.T, hint), Typ: x.Typ, Origin: x.Origin, Aux: x.Aux, Allocs: x.Allocs}
 	case *StructV:
 		r := &StructV{Typ: x.Typ}
 		for _, f := range x.F {
@@ -1399,7 +1399,7 @@ func (u *Unit) enterBlock(fr *Frame, b *ssa.BasicBlock, ins []edgeState) *State 
 			}
 		}
 		if sc, ok := val.(*Scalar); ok {
-			val = &Scalar{T: u.define(sc.T, "phi_"+phi.Comment), Typ: phi.Type(), Origin: sc.Origin, Aux: sc.Aux}
+			val = &Scalar{T: u.define(sc.T, "phi_"+phi.Comment), Typ: phi.Type(), Origin: sc.Origin, Aux: sc.Aux, Allocs: sc.Allocs}
 		}
 		fr.vals[phi] = val
 	}
@@ -1616,6 +1616,10 @@ func (u *Unit) canUnroll(fr *Frame, li *loopInfo) bool {
 	// whose backing array is a constant-length local array
 	for _, in := range li.head.Instrs {
 		if bo, ok := in.(*ssa.BinOp); ok && bo.Op == token.LSS {
+			// an index loop over an array: the bound is the array's length, a small constant
+			if c, ok := bo.Y.(*ssa.Const); ok && c.Value != nil && c.Int64() >= 0 && c.Int64() <= 16 && countedLoop(li) {
+				return true
+			}
 			if call, ok := bo.Y.(*ssa.Call); ok {
 				if b, ok := call.Call.Value.(*ssa.Builtin); ok && b.Name() == "len" {
 					// dynamically: the slice value is backed by a constant-length local array
